@@ -116,6 +116,8 @@ impl SDJWTHolder {
                 "has_key": holder_key.is_some(),
                 "sign_alg": sign_alg,
                 "format": self.sd_jwt_engine.serialization_format.to_string(),
+                "holder_jwt": self.serialized_sd_jwt,
+                "holder_disclosures": self.sd_jwt_engine.input_disclosures,
             }),
         );
         self.key_binding_jwt_header = Default::default();
